@@ -63,8 +63,8 @@ var stackOps = []weighted{
 	{"Push", 16}, {"Pop", 10}, {"RemoveAll", 1}, {"GetCapacity", 2}, {"AsArray", 2}, {"GetIterator", 1}, {"IterMove", 2}, {"GetSize", 2}, {"IsEmpty", 1},
 }
 var iterOps = []weighted{
-	{"NewSlice", 2}, {"MakeArr", 1}, {"MakeEmpty", 2}, {"FromArray", 5}, {"FromSeq", 2},
-	{"NewASlice", 1}, {"MakeEmptyA", 1}, {"FromArrayA", 2}, {"ASet", 3}, {"ARemove", 1}, {"AGetIterator", 4}, {"IterMoveA", 12},
+	{"NewSlice", 2}, {"MakeArr", 1}, {"MakeEmpty", 4}, {"FromArray", 5}, {"FromSeq", 2},
+	{"NewASlice", 1}, {"MakeEmptyA", 1}, {"FromArrayA", 3}, {"ASet", 9}, {"ARemove", 1}, {"AGetIterator", 6}, {"IterMoveA", 14},
 	{"GetIterator", 8}, {"IterMove", 30},
 	{"SetValue", 2}, {"InsertValue", 2}, {"AppendValue", 2}, {"RemoveValue", 2}, {"RemoveAll", 1}, {"SortValues", 1}, {"ReverseValues", 1},
 	{"AddValue", 2}, {"DelValue", 1}, {"Push", 3}, {"Pop", 2}, {"SliceSet", 1}, {"ASort", 1}, {"AReverse", 1},
